@@ -13,6 +13,8 @@ import ast
 
 from ..core import AnalysisError, norm, loc, walk_no_nested, attr_chain, call_name, receiver_name, find_calls
 from ..cfg import CFG
+from ..core import func_params, kwarg
+from ..normalize import inline, branch_values, Unknown, builders, local_env, expand, canon, ctext, conjuncts, merge_outcomes
 
 AUTHZ = 'fim.authz.attribute_collector:ResourceAuthZAttributes'
 LOGC = 'fim.logging.log_collector:LogCollector'
@@ -24,6 +26,68 @@ def attr_key(prog, cls, expr):
         return prog.const_eval(expr, cls.module, cls)
     except Exception:
         return None
+
+
+class Contribution:
+    def __init__(self, op, key, key_expr, value, outcome):
+        self.op = op                # 'append' | 'add' | 'assign' | 'aug'
+        self.key = key              # folded attribute id (string) or None
+        self.key_expr = key_expr
+        self.value = value
+        self.outcome = outcome
+
+    @property
+    def conds(self):
+        return self.outcome.cond_nodes
+
+
+def contributions(prog, cls, fn0):
+    """Every update of self._attributes[...] made by a collector, with the conditions under which it happens and the value,
+    temporaries expanded and private helpers (other than the collectors themselves) inlined."""
+    collectors = tuple(n for n in cls.all_method_names() if n.startswith('_collect_attributes_from_'))
+    fn = inline(prog, cls, fn0, exclude=collectors)
+
+    def sink(st):
+        if isinstance(st, ast.Expr) and isinstance(st.value, ast.Call) and isinstance(st.value.func, ast.Attribute) and \
+                st.value.func.attr in ('append', 'add') and len(st.value.args) == 1:
+            return (st.value.func.value, st.value.args[0])
+        if isinstance(st, ast.AugAssign) and isinstance(st.target, ast.Subscript):
+            return (st.target, st.value)
+        if isinstance(st, ast.Assign) and len(st.targets) == 1 and isinstance(st.targets[0], ast.Subscript):
+            return (st.targets[0], st.value)
+        return None
+    try:
+        outs = branch_values(fn.body, sink, follow_loops=True)
+    except Unknown as u:
+        raise AnalysisError(f'{cls.name}.{fn0.name}: not analysable: {u}')
+    res = []
+    for o in merge_outcomes(outs):
+        t = o.target
+        key_expr = None
+        while isinstance(t, ast.Subscript):
+            if ast.unparse(t.value) == 'self._attributes':
+                key_expr = t.slice
+                break
+            t = t.value
+        if key_expr is None:
+            continue
+        st = o.stmt
+        op = 'aug' if isinstance(st, ast.AugAssign) else ('assign' if isinstance(st, ast.Assign) else st.value.func.attr)
+        res.append(Contribution(op, attr_key(prog, cls, key_expr), key_expr, o.value, o))
+    return fn, res
+
+
+def cond_fields(cond, sliver_param):
+    """what a condition depends on: first attribute / method after the sliver parameter, 'self._attributes', or name:<other>"""
+    out = set()
+    for n in ast.walk(cond):
+        if isinstance(n, ast.Attribute):
+            ch = attr_chain(n)
+            if ch and ch[0] == sliver_param and len(ch) >= 2:
+                out.add(ch[1])
+        elif isinstance(n, ast.Name) and n.id not in (sliver_param, 'self', 'str', 'len', 'isinstance', 'set', 'list') and n.id[:1].islower():
+            out.add('name:' + n.id)
+    return out
 
 
 def run(prog, rep):
@@ -73,50 +137,55 @@ def run(prog, rep):
     if ct is None:
         raise AnalysisError('_collect_attributes_from_topo vanished')
     fq = f'{az.name}._collect_attributes_from_topo'
-    set_names = [ast.unparse(n.targets[0]) for n in walk_no_nested(ct) if isinstance(n, ast.Assign)
-                 and isinstance(n.value, ast.Call) and ast.unparse(n.value.func) == 'set']
     consumer_loops = [n for n in ct.body if isinstance(n, ast.For) and
                       any(isinstance(c, ast.Call) and call_name(c) == '_collect_attributes_from_ns' for c in ast.walk(n))]
     if len(consumer_loops) != 1:
         raise AnalysisError(f'{fq}: the loop that visits the services was not found at top level')
     cons = consumer_loops[0]
     cons_call = [c for c in ast.walk(cons) if isinstance(c, ast.Call) and call_name(c) == '_collect_attributes_from_ns'][0]
-    passed = [ast.unparse(a) for a in cons_call.args[1:]] + [ast.unparse(k.value) for k in cons_call.keywords]
-    for sname in set_names:
-        if sname not in passed:
-            continue
-        adds = [n for n in ast.walk(ct) if isinstance(n, ast.Call) and isinstance(n.func, ast.Attribute)
-                and n.func.attr in ('add', 'update') and ast.unparse(n.func.value) == sname]
-        rep.instance('R1', f'{fq}: {sname} filled by {len(adds)} statement(s), consumed by the services loop')
-        if not adds:
+    passed = [a for a in cons_call.args[1:]] + [k.value for k in cons_call.keywords]
+    passed_names = [a.id for a in passed if isinstance(a, ast.Name)]
+    blds = builders(ct)
+    body_index = {id(st): i for i, st in enumerate(ct.body)}
+
+    def top_index(node):
+        t = node
+        while getattr(t, '_parent', None) is not ct:
+            t = t._parent
+        return body_index.get(id(t), 10 ** 6)
+    fed = False
+    for sname in passed_names:
+        bl = blds.get(sname, [])
+        rep.instance('R1', f'{fq}: {sname} filled by {len(bl)} builder(s), consumed by the services loop')
+        if not bl:
             rep.violation('R1', loc(amod, ct), fq, f'{sname} is never filled',
                           'the set of in-slice ports passed to the service collector is always empty')
-        for a in adds:
-            # the add must be in a top-level loop that ends before the consumer loop starts
-            top = a
-            while top._parent is not ct:
-                top = top._parent
-            if top is cons or top.lineno > cons.lineno:
-                rep.violation('R1', loc(amod, a), fq, norm(a),
+            continue
+        fed = True
+        for b_ in bl:
+            if top_index(b_.node) >= body_index[id(cons)]:
+                rep.violation('R1', loc(amod, b_.node), fq, norm(b_.node, 90),
                               f'{sname} is still being filled while (or after) the services are visited: a port-mirror '
                               f'service stored before the service that owns the mirrored port is treated as mirroring a port '
                               f'outside the slice, so the result depends on the order in which services are stored')
-        # the fill loop ranges over all interfaces of the topology
-        fill_loops = [n for n in ct.body if isinstance(n, ast.For) and any(a in list(ast.walk(n)) for a in adds)]
-        for fl in fill_loops:
-            rep.instance('R1', f'{fq}: {sname} filled from {norm(fl.iter)}')
-            if 'interface_list' not in ast.unparse(fl.iter) and 'interfaces' not in ast.unparse(fl.iter):
-                rep.violation('R1', loc(amod, fl), fq, norm(fl.iter),
+            its = ' '.join(ast.unparse(it) for _, it in b_.gens)
+            rep.instance('R1', f'{fq}: {sname} filled from {its}')
+            if 'interface_list' not in its and 'interfaces' not in its:
+                rep.violation('R1', loc(amod, b_.node), fq, its,
                               'the in-slice port set must be computed from all interfaces of the topology')
-    if not any(s in passed for s in set_names):
+    if not fed and not any(isinstance(a, (ast.SetComp, ast.Call)) for a in passed):
         rep.violation('R1', loc(amod, cons_call), fq, norm(cons_call),
                       'the service collector is no longer given the set of in-slice ports')
 
     # ---- R2 ----
-    for name, fn in az.methods.items():
+    for name, fn0 in az.methods.items():
+        fn = inline(prog, az, fn0, exclude=tuple(x for x in az.all_method_names() if x.startswith('_collect_attributes_from_')))
+        fparams = set(func_params(fn))
         for n in walk_no_nested(fn):
             if isinstance(n, ast.Subscript) and ast.unparse(n.value) == 'self._attributes':
                 k = n.slice
+                if isinstance(k, ast.Name) and k.id in fparams:
+                    continue        # a helper that takes the attribute id as a parameter: checked where it is inlined
                 if isinstance(k, ast.Name):
                     # local variable: resolve its assignment(s) in this function
                     vals = []
@@ -178,8 +247,10 @@ def run(prog, rep):
                           f'the attribute id for {k} is not in ATTRIBUTE_TYPES_AND_CATEGORIES')
     # the ext / mirror sites are appended for every such service (site defaulted when unknown)
     rep.instance('R2', 'ns collector appends the site under the per-type attribute id')
-    app = [n for n in ast.walk(ns) if isinstance(n, ast.Call) and call_name(n) == 'append' and
-           'resource_name' in ast.unparse(n.func.value) and ast.unparse(n.args[0]) == 'sliver.site']
+    _, ns_contrib = contributions(prog, az, ns)
+    ssl0 = [a.arg for a in ns.args.args if a.arg != 'self'][0]
+    app = [c for c in ns_contrib if c.key is None and isinstance(c.key_expr, ast.Subscript) and ast.unparse(c.key_expr.value) == 'self.NSTYPE_LUT'
+           and ctext(c.value) == f'{ssl0}.site']
     if not app:
         rep.violation('R2', loc(amod, ns), f'{az.name}._collect_attributes_from_ns_sliver', 'site not appended under the per-type id',
                       'externally routed / mirror services no longer contribute their site')
@@ -205,57 +276,66 @@ def run(prog, rep):
                           'collecting from the serialized model must rebuild the topology and use the same collector')
 
     # ---- R4 ----
-    def appends(fn):
-        """[(attribute key text without self., value expr, call)] for self._attributes[K].append(V)"""
-        out = []
-        for c in ast.walk(fn):
-            if isinstance(c, ast.Call) and call_name(c) == 'append' and isinstance(c.func.value, ast.Subscript) and \
-                    ast.unparse(c.func.value.value) == 'self._attributes' and c.args:
-                out.append((ast.unparse(c.func.value.slice).replace('self.', ''), c.args[0], c))
-        return out
+    def expect(rule, cls, fq, contribs, sliver, key, value_ok, allowed, what, need_conds=()):
+        """the attribute `key` gets a contribution whose value satisfies value_ok, under conditions that depend only on the
+        `allowed` fields of the sliver (any further condition means some resources are silently left out)"""
+        cs = [c for c in contribs if c.key == key or (c.key is None and key is None)]
+        good = [c for c in cs if value_ok(c.value)]
+        rep.instance(rule, f'{fq}: {key} <- {sorted({ctext(c.value) for c in cs})} under {sorted({ctext(n) for c in cs for n in c.conds})}')
+        if not good:
+            rep.violation(rule, loc(cls.module, cls.methods[fq.split(".")[-1]]), fq, f'{key} not fed from {what}',
+                          f'attribute {key} must list {what} of every element; found {sorted({ctext(c.value) for c in cs}) or "nothing"}')
+            return
+        for c in cs:
+            if not value_ok(c.value):
+                rep.violation(rule, loc(cls.module, c.outcome.stmt), fq, f'{key} also fed from {ctext(c.value)}',
+                              f'attribute {key} must list {what}; it is (also) fed from {ctext(c.value)}')
+        for c in good:
+            extra = set()
+            for n in c.conds:
+                extra |= cond_fields(n, sliver) - set(allowed)
+            if extra:
+                rep.violation(rule, loc(cls.module, c.outcome.stmt), fq, f'{key} recorded only under a condition on {sorted(extra)}',
+                              f'{what} is recorded under {key} only when a condition on {sorted(extra)} holds: elements for which it does '
+                              f'not hold are missing from the request although they carry that resource')
+            for need in need_conds:
+                if not any(need(n) for n in c.conds):
+                    rep.violation(rule, loc(cls.module, c.outcome.stmt), fq, f'{key} recorded outside its type branch',
+                                  f'{key} is updated for elements of other types as well')
 
-    def chain_tail(e, n):
-        ch = attr_chain(e)
-        return tuple(ch[-n:]) if ch and len(ch) >= n else None
+    def tail_is(sliver, *tail):
+        def ok(v):
+            ch = attr_chain(v)
+            return bool(ch) and ch[0] == sliver and tuple(ch[1:]) == tail
+        return ok
+    RK = {k_: prog.class_const(az, k_) for k_ in ('RESOURCE_CPU', 'RESOURCE_RAM', 'RESOURCE_DISK', 'RESOURCE_SITE', 'RESOURCE_COMPONENT', 'RESOURCE_BW',
+                                                   'RESOURCE_TYPE', 'RESOURCE_FACILITY_PORT')}
+    nsl0 = az.methods.get('_collect_attributes_from_node_sliver')
+    sl = [a.arg for a in nsl0.args.args if a.arg != 'self'][0]
+    nsl, ncon = contributions(prog, az, nsl0)
+    fqn = f'{az.name}._collect_attributes_from_node_sliver'
+    for kname, fld in (('RESOURCE_CPU', 'core'), ('RESOURCE_RAM', 'ram'), ('RESOURCE_DISK', 'disk')):
+        expect('R4', az, fqn, ncon, sl, RK[kname], tail_is(sl, 'capacities', fld), {'capacities'}, f'{sl}.capacities.{fld}')
+    expect('R4', az, fqn, ncon, sl, RK['RESOURCE_SITE'], tail_is(sl, 'site'), {'site'}, f'{sl}.site')
 
-    nsl = az.methods.get('_collect_attributes_from_node_sliver')
-    sl = [a.arg for a in nsl.args.args if a.arg != 'self'][0]
-    napp = appends(nsl)
-    want = {'RESOURCE_CPU': ('capacities', 'core'), 'RESOURCE_RAM': ('capacities', 'ram'), 'RESOURCE_DISK': ('capacities', 'disk'),
-            'RESOURCE_SITE': ('site',)}
-    for key, tail in want.items():
-        vals = [v for k, v, c in napp if k == key]
-        okv = bool(vals) and all(chain_tail(v, len(tail)) == tail and attr_chain(v)[0] == sl for v in vals)
-        rep.instance('R4', f'node collector: {key} <- {[norm(v) for v in vals]}')
-        if not okv:
-            rep.violation('R4', loc(amod, nsl), f'{az.name}._collect_attributes_from_node_sliver', f'{key} not fed from {sl}.{".".join(tail)}',
-                          f'attribute {key} must list {".".join(tail)} of every node; found {[norm(v) for v in vals] or "nothing"}')
-    comp = [(v, c) for k, v, c in napp if k == 'RESOURCE_COMPONENT']
-    okc = False
-    for v, c in comp:
-        loop = c
-        while loop is not None and not isinstance(loop, ast.For):
-            loop = getattr(loop, '_parent', None)
-        if loop is not None and isinstance(loop.iter, ast.Call) and call_name(loop.iter) == 'list_devices' and \
-                any(isinstance(x, ast.Call) and call_name(x) == 'get_type' and receiver_name(x) == ast.unparse(loop.target) for x in ast.walk(v)):
-            okc = True
-    rep.instance('R4', f'node collector: RESOURCE_COMPONENT <- type of every attached component: {okc}')
-    if not okc:
-        rep.violation('R4', loc(amod, nsl), f'{az.name}._collect_attributes_from_node_sliver', 'component types not collected',
-                      'the type of every attached component must be listed')
+    def comp_type(v):
+        return any(isinstance(x, ast.Call) and call_name(x) in ('get_type',) or (isinstance(x, ast.Attribute) and x.attr in ('resource_type', 'type'))
+                   for x in ast.walk(v)) and not any(isinstance(x, ast.Name) and x.id == sl for x in ast.walk(v))
+    expect('R4', az, fqn, ncon, sl, RK['RESOURCE_COMPONENT'], comp_type, {'attached_components_info'}, 'the type of every attached component')
+    comp_loops = [l for l in ast.walk(nsl) if isinstance(l, ast.For) and isinstance(l.iter, ast.Call) and call_name(l.iter) in ('list_devices', 'values')
+                  and any(isinstance(c, ast.Call) and call_name(c) in ('append', '_append_unique') for c in ast.walk(l))]
+    rep.instance('R4', f'node collector: component loop over {[norm(l.iter, 60) for l in comp_loops]}')
+    if not comp_loops:
+        rep.violation('R4', loc(amod, nsl0), fqn, 'component types not collected', 'the type of every attached component must be listed')
     ssl = [a.arg for a in ns.args.args if a.arg != 'self'][0]
-    sapp = appends(ns)
-    for key, tail in (('RESOURCE_BW', ('capacities', 'bw')), ('RESOURCE_SITE', ('site',))):
-        vals = [v for k, v, c in sapp if k == key]
-        okv = bool(vals) and all(chain_tail(v, len(tail)) == tail and attr_chain(v)[0] == ssl for v in vals)
-        rep.instance('R4', f'service collector: {key} <- {[norm(v) for v in vals]}')
-        if not okv:
-            rep.violation('R4', loc(amod, ns), f'{az.name}._collect_attributes_from_ns_sliver', f'{key} not fed from {ssl}.{".".join(tail)}',
-                          f'attribute {key} must list {".".join(tail)} of every service')
+    fqs = f'{az.name}._collect_attributes_from_ns_sliver'
+    expect('R4', az, fqs, ns_contrib, ssl, RK['RESOURCE_BW'], tail_is(ssl, 'capacities', 'bw'), {'capacities'}, f'{ssl}.capacities.bw')
+    expect('R4', az, fqs, ns_contrib, ssl, RK['RESOURCE_SITE'], tail_is(ssl, 'site'), {'site'}, f'{ssl}.site')
     for cls in (az, lg):
         ctp = cls.methods.get('_collect_attributes_from_topo')
         tp_ = [a.arg for a in ctp.args.args if a.arg != 'self'][0]
-        its = [ast.unparse(n.iter) for n in ctp.body if isinstance(n, ast.For)]
+        its = [ast.unparse(n.iter) for n in walk_no_nested(ctp) if isinstance(n, ast.For)] + \
+              [ast.unparse(g.iter) for n in ast.walk(ctp) if isinstance(n, (ast.ListComp, ast.SetComp, ast.GeneratorExp, ast.DictComp)) for g in n.generators]
         for view in ('nodes', 'network_services', 'facilities'):
             okv = any(i.startswith(f'{tp_}.{view}') for i in its)
             rep.instance('R4', f'{cls.name} topology collector iterates {view}: {okv}')
@@ -263,76 +343,111 @@ def run(prog, rep):
                 rep.violation('R4', loc(cls.module, ctp), f'{cls.name}._collect_attributes_from_topo', f'{view} not visited',
                               f'the topology collector no longer visits the {view} of the topology')
 
+    # ---- R6: a per-element collector never overwrites a shared attribute with values that differ between elements ----
+    rep.rule('R6', 'per-element collectors do not overwrite a shared attribute with element-dependent values (order independence)', floor=1)
+    for fq_, contribs in ((fqn, ncon), (fqs, ns_contrib)):
+        by_key = {}
+        for c in contribs:
+            if c.op == 'assign':
+                by_key.setdefault(c.key or ast.unparse(c.key_expr), []).append(c)
+        for k_, cs in by_key.items():
+            vals = sorted({ctext(c.value) for c in cs})
+            uncond = [c for c in cs if not c.conds]
+            rep.instance('R6', f'{fq_}: {k_} overwritten with {vals} ({len(uncond)} unconditional)')
+            if len(vals) > 1 or uncond:
+                rep.violation('R6', loc(amod, cs[0].outcome.stmt), fq_, f'{k_} overwritten per element with {vals}',
+                              f'the request-wide attribute {k_} is assigned (not appended) once per element with a value that depends on '
+                              f'the element ({vals}): the element visited last decides the result, so the same slice gives different '
+                              f'requests depending on the order in which its elements are stored')
+
     # ---- R5 tallies ----
-    lns = lg.methods.get('_collect_attributes_from_node_sliver')
+    lns0 = lg.methods.get('_collect_attributes_from_node_sliver')
     lmod = lg.module
     fq = f'{lg.name}._collect_attributes_from_node_sliver'
-    chain = []
-    cur = lns.body[0] if lns.body and isinstance(lns.body[0], ast.If) else None
-    first_if = [s for s in lns.body if isinstance(s, ast.If) and 'resource_type' in ast.unparse(s.test)]
-    if not first_if:
-        raise AnalysisError(f'{fq}: type dispatch not found')
-    cur = first_if[0]
-    while cur is not None:
-        chain.append(cur)
-        cur = cur.orelse[0] if len(cur.orelse) == 1 and isinstance(cur.orelse[0], ast.If) else None
-    want = {'VM': 'vm_count', 'Switch': 'p4_count', 'Facility': 'facilities'}
+    lsl = [a.arg for a in lns0.args.args if a.arg != 'self'][0]
+    lns, lcon = contributions(prog, lg, lns0)
 
-    def updates(stmt, counter):
-        """does the statement update self._attributes[<counter>] (+= / .add / .append)?"""
-        if isinstance(stmt, ast.AugAssign) and isinstance(stmt.target, ast.Subscript) and \
-                ast.unparse(stmt.target.value) == 'self._attributes' and isinstance(stmt.target.slice, ast.Constant) and stmt.target.slice.value == counter:
-            return True
-        if isinstance(stmt, ast.Expr) and isinstance(stmt.value, ast.Call) and isinstance(stmt.value.func, ast.Attribute) and \
-                stmt.value.func.attr in ('add', 'append') and isinstance(stmt.value.func.value, ast.Subscript) and \
-                ast.unparse(stmt.value.func.value.value) == 'self._attributes' and isinstance(stmt.value.func.value.slice, ast.Constant) \
-                and stmt.value.func.value.slice.value == counter:
-            return True
-        return False
-    seen = set()
-    for br in chain:
-        ttxt = ast.unparse(br.test)
-        for tname, counter in want.items():
-            if f'NodeType.{tname}' in ttxt:
-                seen.add(tname)
-                direct = [st for st in br.body if updates(st, counter)]
-                anywhere = [st for st in ast.walk(br) if isinstance(st, ast.stmt) and updates(st, counter)]
-                rep.instance('R5', f'{fq}: {tname} branch updates {counter}: direct={len(direct)} total={len(anywhere)}')
-                if not direct:
-                    rep.violation('R5', loc(lmod, br), fq, f'{counter} not updated unconditionally in the {tname} branch',
-                                  f'the tally {counter} must be updated for every {tname} node; it is '
-                                  f'{"only updated under a further condition" if anywhere else "never updated"}, so nodes '
-                                  f'without the optional data are not counted')
-    for tname in want:
-        if tname not in seen:
-            rep.violation('R5', loc(lmod, lns), fq, f'no branch for NodeType.{tname}', f'{tname} nodes are not tallied')
-    lsl = [a.arg for a in lns.args.args if a.arg != 'self'][0]
-    core_upd = [st for st in ast.walk(lns) if isinstance(st, ast.stmt) and updates(st, 'core_count')]
-    site_upd = [st for st in ast.walk(lns) if isinstance(st, ast.stmt) and updates(st, 'sites')]
+    def is_type(tname):
+        def ok(n):
+            n = canon(n)
+            return isinstance(n, ast.Compare) and len(n.ops) == 1 and isinstance(n.ops[0], ast.Eq) and \
+                any(isinstance(x, ast.Attribute) and x.attr == tname and isinstance(x.value, ast.Name) and x.value.id == 'NodeType' for x in (n.left, n.comparators[0]))
+        return ok
+    one = lambda v: isinstance(v, ast.Constant) and v.value == 1
+    TYPE_FIELDS = {'resource_type', 'get_type', 'type'}
+    for tname, counter, vok, what in (('VM', 'vm_count', one, 'one per VM'), ('Switch', 'p4_count', one, 'one per switch'),
+                                      ('Facility', 'facilities', lambda v: True, 'the name of every facility')):
+        cs = [c for c in lcon if c.key == counter]
+        rep.instance('R5', f'{fq}: {counter} updated under {sorted({ctext(n) for c in cs for n in c.conds})}')
+        if not any(any(is_type(tname)(n) for n in c.conds) for c in cs):
+            rep.violation('R5', loc(lmod, lns0), fq, f'no branch for NodeType.{tname}', f'{tname} nodes are not tallied')
+            continue
+        for c in cs:
+            extra = set()
+            for n in c.conds:
+                extra |= cond_fields(n, lsl) - TYPE_FIELDS
+            if extra or not vok(c.value):
+                rep.violation('R5', loc(lmod, c.outcome.stmt), fq, f'{counter} not updated unconditionally in the {tname} branch',
+                              f'the tally {counter} must be updated for every {tname} node; it is only updated under a further condition '
+                              f'on {sorted(extra)}, so nodes without the optional data are not counted')
+    core = [c for c in lcon if c.key == 'core_count']
+    okc = bool(core) and all(isinstance(c.value, ast.Attribute) and c.value.attr == 'core' for c in core)
+    sites = [c for c in lcon if c.key == 'sites']
+    oks = bool(sites) and all(ctext(c.value) == f'{lsl}.site' and not (set().union(*[cond_fields(n, lsl) for n in c.conds]) - {'site'}) for c in sites)
     comp_calls = [c for c in find_calls(lns, '_collect_attributes_from_component_sliver', nested=True)]
-    for what, okv in (('core tally adds the cores of the capacity', bool(core_upd) and ast.unparse(core_upd[0].value).endswith('.core')),
-                      ('site tally adds the node site', bool(site_upd) and ast.unparse(site_upd[0].value.args[0]) == f'{lsl}.site'),
-                      ('component tally visits every attached component', bool(comp_calls) and isinstance(comp_calls[0]._parent._parent, ast.For)
-                       and call_name(comp_calls[0]._parent._parent.iter) == 'list_devices')):
+    okk = bool(comp_calls) and any(isinstance(p_, ast.For) and isinstance(p_.iter, ast.Call) and call_name(p_.iter) in ('list_devices', 'values')
+                                   for p_ in _ancestors(comp_calls[0], lns))
+    for what, okv in (('core tally adds the cores of the capacity', okc), ('site tally adds the node site', oks),
+                      ('component tally visits every attached component', okk)):
         rep.instance('R5', f'{fq}: {what}: {okv}')
         if not okv:
-            rep.violation('R5', loc(lmod, lns), fq, what, f'the accounting summary no longer satisfies: {what}')
+            rep.violation('R5', loc(lmod, lns0), fq, what, f'the accounting summary no longer satisfies: {what}')
     # component tally: the count of the component's type goes up by exactly one
-    lcs = lg.methods.get('_collect_attributes_from_component_sliver')
-    plus_one = [n for n in ast.walk(lcs) if isinstance(n, ast.BinOp) and isinstance(n.op, ast.Add) and
-                any(isinstance(x, ast.Constant) and x.value == 1 for x in (n.left, n.right))] + \
-               [n for n in ast.walk(lcs) if isinstance(n, ast.AugAssign) and isinstance(n.op, ast.Add) and isinstance(n.value, ast.Constant) and n.value.value == 1]
-    stores = [n for n in ast.walk(lcs) if isinstance(n, (ast.Assign, ast.AugAssign)) and "['components']" in ast.unparse(n.targets[0] if isinstance(n, ast.Assign) else n.target)]
-    rep.instance('R5', f'component tally: +1 expressions {len(plus_one)}, stores into the components tally {len(stores)}')
-    if not plus_one or not stores:
-        rep.violation('R5', loc(lmod, lcs), f'{lg.name}._collect_attributes_from_component_sliver', 'component count not incremented by one',
+    lcs0 = lg.methods.get('_collect_attributes_from_component_sliver')
+    _, ccon = contributions(prog, lg, lcs0)
+    stores = [c for c in ccon if c.key == 'components']
+
+    def plus_one(v):
+        return (isinstance(v, ast.BinOp) and isinstance(v.op, ast.Add) and any(one(x) for x in (v.left, v.right))) or one(v)
+    rep.instance('R5', f'component tally: stores {[ctext(c.value) for c in stores]}')
+    if not stores or not all(plus_one(c.value) and not c.conds for c in stores):
+        rep.violation('R5', loc(lmod, lcs0), f'{lg.name}._collect_attributes_from_component_sliver', 'component count not incremented by one',
                       'every component must add one to the tally of its type')
-    lsv = lg.methods.get('_collect_attributes_from_ns_sliver')
-    direct = [st for st in lsv.body if updates(st, 'services')]
-    rep.instance('R5', f'service tally appends one entry per service unconditionally: {bool(direct)}')
-    if not direct:
-        rep.violation('R5', loc(lmod, lsv), f'{lg.name}._collect_attributes_from_ns_sliver', 'service not tallied unconditionally',
+    lsv0 = lg.methods.get('_collect_attributes_from_ns_sliver')
+    _, scon = contributions(prog, lg, lsv0)
+    direct = [c for c in scon if c.key == 'services']
+    # the bandwidth part of the entry may be selected by a conditional expression; the append itself must not be conditional on
+    # anything but that selection
+    lssl = [a.arg for a in lsv0.args.args if a.arg != 'self'][0]
+    always = bool(direct) and _covers_all_paths(direct)
+    rep.instance('R5', f'service tally appends one entry per service unconditionally: {always}')
+    if not always:
+        rep.violation('R5', loc(lmod, lsv0), f'{lg.name}._collect_attributes_from_ns_sliver', 'service not tallied unconditionally',
                       'every service must be appended to the services tally')
+
+
+def _ancestors(node, fn):
+    p = getattr(node, '_parent', None)
+    while p is not None and p is not fn:
+        yield p
+        p = getattr(p, '_parent', None)
+
+
+def _covers_all_paths(contribs):
+    """the contributions, taken together, happen on every path: their condition sets are either empty or form complementary
+    pairs (c / not c) coming from a value selected by a conditional"""
+    sets = [frozenset(ctext(n) for n in c.conds) for c in contribs]
+    if any(not s_ for s_ in sets):
+        return True
+    # two contributions whose conditions are {c} and {not c}
+    for a_ in contribs:
+        for b_ in contribs:
+            if len(a_.conds) == 1 and len(b_.conds) == 1:
+                from ..normalize import negate
+                if ctext(negate(a_.conds[0])) == ctext(b_.conds[0]):
+                    return True
+    return False
+
 
 AC = 'fim/authz/attribute_collector.py'
 LC = 'fim/logging/log_collector.py'
